@@ -139,14 +139,14 @@ def sp_setup(ctx):
     from pyvc.engine import ClassRef
     kind = ["POSITIONAL_OR_KEYWORD", "KEYWORD_ONLY", "VAR_POSITIONAL", "VAR_KEYWORD"][ctx.choose(4, "param-kind")]
     dflt = ["no-default", "a-value", "None"][ctx.choose(3, "param-default")]
-    ann = ["int", "Optional[int]", "Complex", "untyped", "Optional[List[int]]"][ctx.choose(5, "annotation")]
+    ann = ["int", "Optional[int]", "Complex", "untyped", "Optional[List[int]]", "float"][ctx.choose(6, "annotation")]  # float: the signature default is an int (x: float = 1)
     name = ["x", "_private"][ctx.choose(2, "name")]
     as_positional = ctx.choose(2, "as_positional") == 1
     fail_untyped = ctx.choose(2, "fail_untyped") == 1
     nested = [None, "grp"][ctx.choose(2, "nested_key")]
     linked = ctx.choose(2, "is-a-link-target") == 1
     default_val = z3.Int("signature-default")
-    annotation = {"int": ClassRef("int"), "Optional[int]": Rec("Optional[int]", attrs={"optional": True, "wrapped_is_a_class": True}), "Complex": Rec("Dict[str, int]", attrs={"optional": False}), "untyped": EMPTY,
+    annotation = {"float": ClassRef("float"), "int": ClassRef("int"), "Optional[int]": Rec("Optional[int]", attrs={"optional": True, "wrapped_is_a_class": True}), "Complex": Rec("Dict[str, int]", attrs={"optional": False}), "untyped": EMPTY,
                   "Optional[List[int]]": Rec("Optional[List[int]]", attrs={"optional": True, "wrapped_is_a_class": False})}[ann]
     param = Rec("ParamData", attrs={"name": name, "kind": kind, "annotation": annotation, "default": {"no-default": EMPTY, "a-value": default_val, "None": None}[dflt],
                                     "doc": "help text", "origin": None, "component": Rec("fn"), "parent": None})
@@ -161,6 +161,9 @@ def sp_setup(ctx):
         "is_dataclass_like": lambda c, a, k: False, "is_subclass": lambda c, a, k: False, "register_pydantic_type": lambda c, a, k: None,
         "ActionTypeHint.is_subclass_typehint": lambda c, a, k: False, "ActionTypeHint.is_return_subclass_typehint": lambda c, a, k: False,
         "ActionTypeHint.prepare_add_argument": lambda c, a, k: k["args"], "type": lambda c, a, k: ClassRef("int"),
+        # conversions the body does not do today: another value than the one given (the declared default must stay the signature's own object, whatever its type -
+        # the other declaration styles keep it too)
+        "float": lambda c, a, k: Rec("float(...)", attrs={"of": a[0]}), "int": lambda c, a, k: Rec("int(...)", attrs={"of": a[0]}), "str": lambda c, a, k: Rec("str(...)", attrs={"of": a[0]}),
     }
     consts = {"inspect_empty": EMPTY, "SUPPRESS": SUPPRESS, "not_required_types": (), "kinds": KINDS, "Any": Rec("Any", attrs={"optional": True}),
               "Optional": Rec("typing.Optional", methods={"__getitem__": lambda c, s_, a, k: optional_of(a[0])}),
@@ -223,7 +226,7 @@ def sp_post(ctx, st, result):
         if d["dflt"] != "a-value" and d["ann"] == "Optional[List[int]]":
             # Optional[Optional[List[int]]] is the same type: either form is the annotation
             t = t.attrs.get("of", t) if isinstance(t, Rec) else t
-        if d["dflt"] == "None" and d["ann"] in ("int", "Complex"):
+        if d["dflt"] == "None" and d["ann"] in ("int", "Complex", "float"):
             ctx.oblige("post", "default-None-for-a-type-that-does-not-admit-None-widens-the-type-to-Optional" + tag, isinstance(t, Rec) and t.attrs.get("of") is d["annotation"])
         elif not (d["linked"] and d["dflt"] == "no-default" and not d["ann"].startswith("Optional[")):
             ctx.oblige("post", "the-declared-type-is-the-annotation" + tag, t is d["annotation"] or (isinstance(t, ClassRef_) and isinstance(d["annotation"], ClassRef_) and t.name == d["annotation"].name))
